@@ -14,9 +14,9 @@ var untimedAssumptions = []string{
 
 func init() {
 	checks["C01"] = func(prop, tier string) int {
-		p := []plan{{"all1", 30}, {"rep2-d3", 30}, {"part2-d4", 40}, {"rep3-d3", 135}, {"crash3-d2", 67}, {"net3-d2", 30}, {"regained5-d2", 70}, {"slowapply3-d2", 30}, {"filecrash3-d2", 30}, {"revote3-d2", 30}}
+		p := []plan{{"all1", 30}, {"rep2-d3", 30}, {"part2-d4", 40}, {"rep3-d3", 135}, {"crash3-d2", 67}, {"net3-d2", 30}, {"regained5-d2", 70}, {"slowapply3-d2", 30}, {"filecrash3-d2", 30}, {"revote3-d2", 30}, {"regainedelect5-d2", 60}}
 		if tier == "thorough" {
-			p = []plan{{"all1", 10}, {"all2", 150}, {"revote3-d4", 300}, {"rep2-d5", 100}, {"rep3-d4", 500}, {"crash3-d3", 300}, {"net3-d3", 120}, {"lead3-d3", 300}, {"rep4-d3", 150}, {"rep5-d2", 60}, {"crash5-d2", 120}, {"part2-d5", 100}, {"part3-d3", 400}, {"part4-d3", 400}, {"regained5-d3", 300}, {"stale5-d3", 300}, {"slowapply3-d3", 400}, {"filecrash3-d3", 300}}
+			p = []plan{{"regainedelect5-d3", 400}, {"all1", 10}, {"all2", 150}, {"revote3-d4", 300}, {"rep2-d5", 100}, {"rep3-d4", 500}, {"crash3-d3", 300}, {"net3-d3", 120}, {"lead3-d3", 300}, {"rep4-d3", 150}, {"rep5-d2", 60}, {"crash5-d2", 120}, {"part2-d5", 100}, {"part3-d3", 400}, {"part4-d3", 400}, {"regained5-d3", 300}, {"stale5-d3", 300}, {"slowapply3-d3", 400}, {"filecrash3-d3", 300}}
 		}
 		sp := []schedPlan{{"sched-rep3", 2, 60}}
 		if tier == "thorough" {
